@@ -409,6 +409,15 @@ impl Check for C07 {
         "C07"
     }
 
+    fn declared_probes(&self) -> Vec<&'static str> {
+        vec![
+            "fault.adversarial-stream-words",
+            "probe.same-genome-different-scores",
+            "probe.tournament-of-size-1",
+            "probe.tournament-over-whole-population",
+        ]
+    }
+
     fn rule(&self) -> String {
         "(1) distribution experiments: for every population size n <= 5 (quick) / 7 (thorough) and every tournament size k <= n, N seeded \
          tournaments over distinct values; the entrant set is observed through a comparison-logging Ord; every k-subset's frequency vs \
